@@ -326,7 +326,12 @@ fn cli_check(c: &StrCase) -> CaseReport {
     let any = std::env::current_exe().unwrap().parent().unwrap().join("any");
     let xdg = format!("{}/build/xdg/C11-{}", crate::runner::verif_root(), std::process::id());
     let mut cmd = Command::new(&any);
-    cmd.env("XDG_DATA_HOME", &xdg).env("TERM", "dumb").env("NO_COLOR", "1").env_remove("RUST_LOG").arg("--").arg(s);
+    cmd.env("XDG_DATA_HOME", &xdg).env("TERM", "dumb").env("NO_COLOR", "1").env_remove("RUST_LOG");
+    // every other input with the most verbose log level (configuration that must not matter; log output is on stderr)
+    if s.len() % 2 == 0 {
+        cmd.env("RUST_LOG", "trace");
+    }
+    cmd.arg("--").arg(s);
     watch_begin(s);
     let o = cmd.output();
     watch_end();
